@@ -1,10 +1,12 @@
 package main
 
 import (
+	"encoding/json"
 	"fmt"
 	"math"
 	"math/big"
 	"sort"
+	"strconv"
 	"strings"
 
 	"github.com/ipld/go-ipld-prime/datamodel"
@@ -505,4 +507,98 @@ func keepRoundTrip(problems []string) []string {
 		}
 	}
 	return out
+}
+
+// literalTextNumbers: numbers a caller holds as TEXT (encoding/json's json.Number, what Decoder.UseNumber yields — a string
+// type) handed to literal.Any, args.Add and meta.Add, alone and inside Go maps and lists. Whatever the library makes of such a
+// value — a string, a number, a refusal — it does not alter it silently: a string equals the text; an integer node equals the
+// integer the text spells and lies within ±(2^53−1); a float node for an INTEGER text is exactly that integer (no rounding),
+// for any other text it is the float the text spells.
+func literalTextNumbers() (out string) {
+	defer func() {
+		if r := recover(); r != nil {
+			out = fmt.Sprint("panic: ", r)
+		}
+	}()
+	texts := []string{"0", "1", "-1", "9007199254740991", "9007199254740992", "-9007199254740992", "9223372036854775807", "9223372036854775808",
+		"-9223372036854775808", "-9223372036854775809", "18446744073709551615", "18446744073709551616", "123456789012345678901234567890",
+		"0.5", "1.5", "1e3", "1E2", "-0", "1e400", "not-a-number", ""}
+	check := func(where, text string, n datamodel.Node) string {
+		if n == nil {
+			return ""
+		}
+		isInt := len(text) > 0 && strings.Trim(strings.TrimPrefix(text, "-"), "0123456789") == "" && text != "-"
+		switch n.Kind() {
+		case datamodel.Kind_String:
+			if s, _ := n.AsString(); s != text {
+				return where + ": the text " + text + " is stored as the string " + s
+			}
+		case datamodel.Kind_Int:
+			want, ok := new(big.Int).SetString(text, 10)
+			if !ok {
+				return where + ": the text " + text + " is stored as an integer"
+			}
+			if p := exactOrRejected(n, nil, want); p != "" {
+				return where + ": " + text + " " + p
+			}
+			if want.CmpAbs(big.NewInt(1<<53-1)) > 0 {
+				return where + ": the integer " + text + " beyond ±(2^53-1) is kept"
+			}
+		case datamodel.Kind_Float:
+			f, _ := n.AsFloat()
+			if isInt {
+				want, _ := new(big.Int).SetString(text, 10)
+				if bf, acc := new(big.Float).SetInt(want).Float64(); acc != big.Exact || bf != f {
+					return fmt.Sprintf("%s: the integer %s is stored as the float %v (not that number)", where, text, f)
+				}
+			} else if pf, err := strconv.ParseFloat(text, 64); err != nil || (pf != f && !(pf != pf && f != f)) {
+				return fmt.Sprintf("%s: the text %s is stored as the float %v", where, text, f)
+			}
+		default:
+			return where + ": the text " + text + " is stored as kind " + n.Kind().String()
+		}
+		return ""
+	}
+	var problems []string
+	note := func(p string) {
+		if p != "" {
+			problems = append(problems, p)
+		}
+	}
+	for _, text := range texts {
+		v := json.Number(text)
+		if n, err := literal.Any(v); err == nil {
+			note(check("literal.Any", text, n))
+		}
+		if n, err := literal.Any(map[string]any{"k": v}); err == nil && n != nil && n.Kind() == datamodel.Kind_Map {
+			if e, err := n.LookupByString("k"); err == nil {
+				note(check("literal.Any(map)", text, e))
+			}
+		}
+		if n, err := literal.Any([]any{v}); err == nil && n != nil && n.Kind() == datamodel.Kind_List {
+			if e, err := n.LookupByIndex(0); err == nil {
+				note(check("literal.Any(list)", text, e))
+			}
+		}
+		a := args.New()
+		if err := a.Add("k", v); err == nil {
+			if e, err := a.GetNode("k"); err == nil {
+				note(check("args.Add", text, e))
+			}
+		}
+		m := meta.NewMeta()
+		if err := m.Add("k", v); err == nil {
+			if e, err := m.GetNode("k"); err == nil {
+				note(check("meta.Add", text, e))
+			}
+		}
+	}
+	sort.Strings(problems)
+	if len(problems) > 4 {
+		problems = append(problems[:4], fmt.Sprintf("… %d more", len(problems)-4))
+	}
+	if len(problems) > 0 {
+		return strings.Join(problems, "; ")
+	}
+	return "ok"
 }
